@@ -40,6 +40,7 @@ pub fn bias_for(_prop: &str, cfg: &str) -> GenBias {
 pub fn runs_for(prop: &str, tier: &str) -> u64 {
     let quick = match prop {
         "C03" => 12_000,
+        "C17" => 6_000,
         _ => 16_000,
     };
     if tier == "thorough" {
